@@ -174,7 +174,8 @@ def history(rng, nops, weights, paymax=40, keypool=None, maxlen=40, big=False, f
             elif 'B' in kinds: s.box()
             else: s.new(rng.choice(kinds))
         elif r < 0.10: s.pair_op()
-        elif r < 0.125 and len(s.k) > 3: s.delete()
+        elif r < 0.115: s.emit(f'read {rng.choice(list(s.k))}')
+        elif r < 0.14 and len(s.k) > 3: s.delete()
         else:
             c = rng.choice(list(s.k))
             k = s.k[c]
@@ -238,7 +239,8 @@ class C05(Spec):
             'stand-alone Box): (a) mixed, (b) sequence-heavy (push/push_at/pop/pop_at/set/rem/resize/sort/concat/assign Array<->List), '
             '(c) map-heavy with 36 keys sharing 6 hash values (clusters, displacement, replace of existing keys, rem with backward shift, '
             'explicit resize, rehash up and down, assign Table<->Tree), (d) growth to n elements then copy and shrink, (e) Box containers, '
-            '(f) error-heavy (25% failing calls: empty pop, bad index, absent key/element, refused resize), plus constructors with initial '
+            '(f) error-heavy (25% failing calls: empty pop, bad index, absent key/element, refused resize), read-only probes (len/iteration/get/mem/hash/eq '
+            'must cause no ownership event), plus constructors with initial '
             'elements, copies, self-assignment, deletions in any order; every op file ends with the deletion of all remaining containers. '
             'non-trivial item = one executed operation whose observation shows an ownership event (element constructed, finalised or '
             'assigned in place) or a raised exception; distinct = distinct (operation text, observation) pairs.')
